@@ -24,7 +24,7 @@ RULE = (
 ASSUMPTIONS = ["golden processes run the same working tree; agreement across hash seeds is part of the property"]
 BATCH = {"quick": 1, "thorough": 1}
 TIMEOUT = {"quick": 2400, "thorough": 10800}
-FLOORS = {"quick": {"history_calls": 80, "golden_processes": 16, "snapshots_compared": 160, "golden_entries": 40},
+FLOORS = {"quick": {"history_calls": 80, "golden_processes": 20, "snapshots_compared": 160, "golden_entries": 40},
           "thorough": {"history_calls": 1000, "golden_processes": 120, "snapshots_compared": 2000, "golden_entries": 200}}
 
 
@@ -32,7 +32,7 @@ def plan(tier, seed):
     n = 12 if tier == "quick" else 72
     return [{"index": i, "seed": [seed, 91, i], "cfg": "quick", "cfg_over": {"max_T": 3, "max_cells": 6000, "max_states": 3, "max_choices": 3},
              "force": {"stochastic": i % 2 == 0, "two_stochastic": i % 4 == 0, "filters": i % 3 == 0, "aux_params": True},
-             "hist_len": 9 if tier == "quick" else 30, "hash_seeds": [1, 1234] if tier == "quick" else [1, 7, 1234, 99991],
+             "hist_len": 9 if tier == "quick" else 30, "hash_seeds": [1, 3, 5, 1234] if tier == "quick" else [1, 3, 5, 7, 1234, 99991],
              "jit_false_solve": i % 4 == 3, "env": {"VERIF_X64": "1", "PYTHONHASHSEED": "0"}} for i in range(n)]
 
 
